@@ -377,5 +377,7 @@ def run(ctx, rep):
     r11e(ctx, rep, cr)
     r11f(ctx, rep, cr)
     r11g(ctx, rep, cr)
+    import c02
+    c02.r02a(ctx, rep, cr)   # durable order = memory order needs the record of every applied change: log first, then apply
     if ctx.tier == 'thorough':
         witness.run(rep, 'R11a', ['MetadataShardsArePrivate'])
